@@ -17,21 +17,30 @@ pub const EPOCH_NS: u64 = 1_700_000_000_000_000_000;
 #[derive(Debug)]
 pub struct VClock {
     now_ns: AtomicU64,
+    /// How far a read moves the clock: 1ns by default; 0 = a clock of finite resolution, which
+    /// returns the same instant until the simulated world moves time (waits, arrivals).
+    step_ns: AtomicU64,
 }
 
 impl VClock {
     pub fn new() -> Arc<Self> {
         Arc::new(Self {
             now_ns: AtomicU64::new(EPOCH_NS),
+            step_ns: AtomicU64::new(1),
         })
     }
     /// Read the clock without ticking.
     pub fn peek(&self) -> u64 {
         self.now_ns.load(Ordering::SeqCst)
     }
-    /// Read the clock, ticking by 1ns: the returned value is unique.
+    /// Read the clock, ticking by 1ns (unless the step was changed): the returned value is unique.
     pub fn tick(&self) -> u64 {
-        self.now_ns.fetch_add(1, Ordering::SeqCst) + 1
+        let step = self.step_ns.load(Ordering::SeqCst);
+        self.now_ns.fetch_add(step, Ordering::SeqCst) + step
+    }
+    /// Change how far a read moves the clock.
+    pub fn set_step(&self, step_ns: u64) {
+        self.step_ns.store(step_ns, Ordering::SeqCst);
     }
     /// Advance the clock to at least `t`.
     pub fn advance_to(&self, t: u64) {
